@@ -71,7 +71,7 @@ def gen_case(r, cid, impl, nops, allow_overflow=False, stats=None):
         if stats is not None: stats["ctor:new"] = stats.get("ctor:new", 0) + 1
     eff_dflt = dflt if dflt >= 1 else NOEXP
     sh = Shadow(now0, eff_dflt)
-    nkeys = r.choice([1, 2, 3, 4, 6])
+    nkeys = r.choice([1, 2, 3, 4, 6, 6, 200])       # 200: bucket chains overflow, the table below grows
     keys = list(range(0, nkeys))
     nextv = [1]
     def val():
@@ -156,6 +156,9 @@ def gen_cases(seed, n, impls=("cache", "cacheof_sa", "cacheof_ii"), nops=(5, 60)
     cases = []
     for i in range(n):
         impl = impls[i % len(impls)]
-        c = gen_case(r, "c%d" % i, impl, r.randint(*nops), allow_overflow, stats)
+        k = r.randint(*nops)
+        if i % 25 == 24:
+            k = k * 25                     # a long history now and then (hundreds of keys in play)
+        c = gen_case(r, "c%d" % i, impl, k, allow_overflow, stats)
         cases.append(densify(c) if dense else c)
     return cases
